@@ -447,15 +447,15 @@ def _read_healsparse_fits_file_and_degrade(filename, pixels, nside_out, reductio
         # Check weight map
         if use_weightfile:
             wfits = HealSparseFits(weightfile)
-            s_hdr_weight = fits.read_ext_header('SPARSE')
-            dtype_weight = fits.get_ext_dtype('SPARSE')
+            s_hdr_weight = wfits.read_ext_header('SPARSE')
+            dtype_weight = wfits.get_ext_dtype('SPARSE')
             testval = np.zeros(1, dtype=dtype_weight)[0]
             if 'SENTINEL' in s_hdr_weight:
                 sentinel_weight = s_hdr_weight['SENTINEL']
             else:
                 sentinel_weight = hpg.UNSEEN
             if ((s_hdr_weight['NSIDE'] != nside_sparse or
-                 not fits.ext_is_image('SPARSE') or
+                 not wfits.ext_is_image('SPARSE') or
                  'WIDEMASK' in s_hdr_weight or
                  is_integer_value(testval))):
                 wfits.close()
